@@ -125,7 +125,9 @@ class XmlTableGen:
                     v = bytes.fromhex(a[1]) if a[1] else b''
                     k = rng.random()
                     if k < 0.4 and vals:
-                        v += bytes.fromhex(rng.choice(vals)[0])
+                        vt = bytes.fromhex(rng.choice(vals)[0])
+                        # (a value that differs from a token only in letter case is a different value)
+                        v += rng.choice([vt, vt, vt, vt.upper(), vt.lower(), vt.swapcase(), vt.capitalize()])
                     elif k < 0.8:
                         v += rng.choice([b'abc', b'www.example.com/', b'1', b'x y'])
                     nm = bytes.fromhex(a[0])
